@@ -26,6 +26,8 @@ def opOfStr : String → Except String Op
   | "terminate" => pure .terminate
   | "rootsSlowEnd" | "rootsSlowReset" => pure .rootsEnd   -- the server closes the stream / resets the connection
   | "reopen" => pure .reopen
+  | "toolsErr404" | "toolsErr400" | "toolsErr401" | "toolsErr403" | "toolsErr500" | "toolsErr503" => pure .toolsFail
+  | "notifyErr404" | "notifyErr400" | "notifyErr401" | "notifyErr403" | "notifyErr500" | "notifyErr503" => pure .notifyFail
   | "rootsSlowReplace" => pure .rootsReplace
   | s => throw s!"op {s}"
 
